@@ -84,6 +84,7 @@ class Simulator:
     # For resets (e.g. update variable)
     _integrator_type: IntegratorType
     _time_shift: float | None
+    _default_start: bool
     _errors: list[Exception]
 
     def __repr__(self) -> str:
@@ -112,6 +113,7 @@ class Simulator:
         """
         self.model = model
         self.y0 = model.get_initial_conditions() if y0 is None else y0
+        self._default_start = y0 is None
 
         self._integrator_type = DefaultIntegrator if integrator is None else integrator
         self._time_shift = None
@@ -160,6 +162,17 @@ class Simulator:
             jac_fn,
         )
 
+    def _resolve_default_start(self) -> None:
+        """Take the start from the model again after its parameters changed.
+
+        Initial values can be assignments that depend on parameters. As long as no
+        start was supplied and nothing was simulated or overridden, the simulation
+        starts from what they resolve to now.
+        """
+        if self._default_start and self.variables is None:
+            self.y0 = self.model.get_initial_conditions()
+            self._initialise_integrator()
+
     def clear_results(self) -> None:
         """Clear simulation results."""
         self.variables = None
@@ -181,6 +194,7 @@ class Simulator:
 
         """
         self.model.update_parameter(parameter, value)
+        self._resolve_default_start()
         return self
 
     def update_parameters(self, parameters: dict[str, float]) -> Self:
@@ -195,6 +209,7 @@ class Simulator:
 
         """
         self.model.update_parameters(parameters)
+        self._resolve_default_start()
         return self
 
     def scale_parameter(self, parameter: str, factor: float) -> Self:
@@ -209,6 +224,7 @@ class Simulator:
 
         """
         self.model.scale_parameter(parameter, factor)
+        self._resolve_default_start()
         return self
 
     def scale_parameters(self, parameters: dict[str, float]) -> Self:
@@ -223,6 +239,7 @@ class Simulator:
 
         """
         self.model.scale_parameters(parameters)
+        self._resolve_default_start()
         return self
 
     def update_variable(self, variable: str, value: float) -> Self:
@@ -249,6 +266,7 @@ class Simulator:
 
         """
         sim_variables = self.variables
+        self._default_start = False
 
         # In case someone calls this before the first simulation
         if sim_variables is None:
@@ -438,7 +456,7 @@ class Simulator:
         for t_end, pars in protocol.iterrows():
             t_end = cast(pd.Timedelta, t_end)
             # A step only sets the parameters it names (the frame pads the others with NaN)
-            self.model.update_parameters(pars.dropna().to_dict())
+            self.update_parameters(pars.dropna().to_dict())
             self.simulate(t_start + t_end.total_seconds(), steps=time_points_per_step)
             if self.variables is None:
                 break
@@ -505,7 +523,7 @@ class Simulator:
 
         for t_end, pars in protocol.iterrows():
             # A step only sets the parameters it names (the frame pads the others with NaN)
-            self.model.update_parameters(pars.dropna().to_dict())
+            self.update_parameters(pars.dropna().to_dict())
 
             self.simulate_time_course(
                 time_points=full_time_points[
